@@ -21,7 +21,7 @@ RULE = ('cases are one key shape (primary + 0-3 subkeys, 1-2 identities with the
         'model in which the primary lacked the capability and a subkey had it, or nobody had it, or a re-binding had changed a '
         'subkey\'s capability; distinct = distinct (capability layout, operation, form, enforcement) tuples')
 TIERS = {'quick': {'runs': 4000, 'budget_s': 80}, 'thorough': {'runs': 200000, 'budget_s': 1500}}
-PROBES = ('subkey_used', 'primary_used', 'nobody_allowed_enforced', 'nobody_allowed_not_enforced', 'rebinding_changed_capability',
+PROBES = ('recertify_without_issuer_fingerprint', 'subkey_used', 'primary_used', 'nobody_allowed_enforced', 'nobody_allowed_not_enforced', 'rebinding_changed_capability',
           'recertify_changed_capability', 'same_second_rebinding', 'form_public', 'form_locked', 'form_unlocked', 'form_unprotected', 'form_copy',
           'no_identity_key', 'user_selected_identity', 'two_capable_subkeys', 'decrypt_by_subkey', 'encrypt_on_private_refused',
           'decrypt_stored_message', 'decrypt_stored_after_capability_lost')
@@ -49,7 +49,8 @@ def generate(rng, tier):
             u = rng.choice(['S', 'A', 'SA']) if world.can_sign(subs[j]['alg']) else rng.choice(['E', 'T', 'ET', 'A'])
             steps.append({'id': sid, 'op': 'rebind', 'sub': j, 'usage': u})
         elif r < 0.27:
-            steps.append({'id': sid, 'op': 'recertify', 'uid': rng.randrange(len(uids)), 'usage': rng.choice(['C', 'CS', 'S', 'CA', 'CSE' if palg.startswith('rsa') else 'CS'])})
+            steps.append({'id': sid, 'op': 'recertify', 'uid': rng.randrange(len(uids)), 'usage': rng.choice(['C', 'CS', 'S', 'CA', 'CSE' if palg.startswith('rsa') else 'CS']),
+                          'no_issuer_fpr': rng.random() < 0.3})
         elif r < 0.37:
             steps.append({'id': sid, 'op': 'tick', 'delta_us': rng.choice([0, 0, 500_000, 1_000_000, 86400_000_000])})
         else:
@@ -164,8 +165,13 @@ def execute(case, ctx):
                 continue
             before = Model.latest(m.uid_flags[i])
             try:
+                extra = {}
+                if step.get('no_issuer_fpr'):
+                    # a self-certification that names its issuer by key id only (as older implementations write them)
+                    extra['include_issuer_fingerprint'] = False
+                    ctx.probe('recertify_without_issuer_fingerprint')
                 sig = key.certify(uid_objs[i], C.SignatureType.Positive_Cert, usage=world.flags_from(step['usage']),
-                                  hashes=[C.HashAlgorithm.SHA256], ciphers=[C.SymmetricKeyAlgorithm.AES256], primary=(i == 0))
+                                  hashes=[C.HashAlgorithm.SHA256], ciphers=[C.SymmetricKeyAlgorithm.AES256], primary=(i == 0), **extra)
                 uid_objs[i] |= sig
             except Exception as e:
                 ctx.event(step['id'], 'recertify', 'raised', type(e).__name__)
